@@ -166,11 +166,17 @@ class Scenario:
         self.lines.append('cal add %d single_reflect %s %d %d' % (self.n, self.mtext(Mf), code if gamma is None else gamma[0], port))
         self.standards.append(('reflect', port, code))
 
-    def add_double_reflect(self, p1, p2, c1, c2, abbreviated='full'):
+    def add_double_reflect(self, p1, p2, c1, c2, abbreviated='full', as_kind='double'):
+        """reflect c1 on port p1 and c2 on port p2, entered as a double reflect, as a line with zero transmission or as a mapped 2x2 matrix"""
         S = [embed(self.p, [p1 - 1, p2 - 1], [[GAMMA[c1], 0], [0, GAMMA[c2]]], self.others) for f in range(self.nf)]
         sel = self.abbrev_sel([p1, p2], abbreviated)
         Mf = self.meas(S, *sel) if sel else self.meas(S)
-        self.lines.append('cal add %d double_reflect %s %d %d %d %d' % (self.n, self.mtext(Mf), c1, c2, p1, p2))
+        if as_kind == 'line':
+            self.lines.append('cal add %d line %s %d 0 0 %d %d %d' % (self.n, self.mtext(Mf), c1, c2, p1, p2))
+        elif as_kind == 'mapped':
+            self.lines.append('cal add %d mapped %s 2 2 %d 0 0 %d M %d %d' % (self.n, self.mtext(Mf), c1, c2, p1, p2))
+        else:
+            self.lines.append('cal add %d double_reflect %s %d %d %d %d' % (self.n, self.mtext(Mf), c1, c2, p1, p2))
         self.standards.append(('double', (p1, p2), (c1, c2)))
 
     def add_through(self, p1, p2, as_kind='through', abbreviated='full'):
